@@ -162,7 +162,7 @@ class C12:
     ]
 
     def bounds(self, tier):
-        return {'constructs': ['%s:%s' % c for c in cons(tier)], 'max_constructs': 3 if tier == 'quick' else 4,
+        return {'constructs': ['%s:%s' % c for c in cons(tier)], 'max_constructs': 3 if tier == 'quick' else '4 (3 for trees with a heading or a switch inside a footnote)',
                 'thresholds': [0, 2, 3] if tier == 'quick' else [0, 1, 2, 3, 4, 5], 'words_in_flat_insertion': [1, 4],
                 'main_language_set_by': list(PREAMBLES), 'trailing_macro_in_insertion': TAILS}
 
@@ -174,6 +174,8 @@ class C12:
             for seq in trees(C, n):
                 if bad_shape(C, seq, ['x'], False):
                     continue
+                if tier != 'quick' and n == nmax and self.newer_shape(C, seq, False):
+                    continue        # headings and switches inside footnotes: up to nmax - 1 constructs
                 if n == nmax:
                     combos = [('opt-en', ths[1], 1, None), ('opt-de', ths[-1], 4, None)]
                 elif n == nmax - 1:
@@ -289,6 +291,13 @@ class C12:
         nt = any(C[ci][0] in 'FOPS' for ci in self.flat(seq))
         return {'viol': viol[:2], 'out': repr(sorted((l, [p[0] for p in ml[l]]) for l in ml)), 'nt': nt, 'tr': 1,
                 'sets': {'model_states(stack,flow,depth)': [repr(x) for x in ctx.states]}}
+
+    def newer_shape(self, C, seq, infoot):
+        for ci, kids in seq:
+            c = C[ci][0]
+            if c == 'H' or (c == 'S' and infoot) or self.newer_shape(C, kids, infoot or c == 'N'):
+                return True
+        return False
 
     def flat(self, seq):
         for ci, kids in seq:
